@@ -2,12 +2,21 @@
 """C30 translator (T2): python3 c30_mutators.py <REPO> <VERIF_ROOT>
 
 Reads lib/src/server/address_space/address_space.rs and regenerates
-lean/OpcuaVerif/Generated/C30Mutators.lean: the list of `pub fn`s of `impl AddressSpace` that take
-`&mut self` and (transitively, through calls on `self`) change `node_map` or `references`, each with
-a flag saying whether the function (transitively) reaches `self.update_last_modified()`.
-`OpcuaVerif.C30.all_mutators_bump` is then `decide`d over that list: a structural mutator that does
-not advance `last_modified` leaves browse continuation points usable after the change.
-Approximation: "reaches" is syntactic (a conditional call counts)."""
+lean/OpcuaVerif/Generated/C30Mutators.lean: every `pub fn` of `impl AddressSpace` that takes
+`&mut self` and (transitively, through calls on `self`) changes `node_map` or `references`, each
+with the way it reaches `self.update_last_modified()`:
+
+  ("name", "always", "")           the call (or a call of a function that always bumps) is a statement
+                                   at the TOP LEVEL of the body — not nested inside if / match / loop /
+                                   closure / any block — and no `return` / `?` occurs before it;
+  ("name", "cond", "<guards>")     every path to the bump is nested or follows an early exit; <guards>
+                                   is the canonical text of the enclosing block headers / early exits
+                                   (alternatives separated by " || ");
+  ("name", "never", "")            no path at all.
+
+`OpcuaVerif.C30.all_mutators_bump` accepts "always" and the exact (name, guards) pairs listed in
+`acceptedGuards` of Proofs/C30.lean (each reviewed against the model: the skipped case changes
+nothing).  Anything else — a new guard, a changed guard, a bump moved into a branch — fails."""
 import os, re, sys
 
 def die(msg):
@@ -18,7 +27,6 @@ def strip_comments(src):
     return "\n".join(l.split("//")[0] for l in src.splitlines())
 
 def body_at(src, i):
-    """src[i] == '{' → index after the matching '}'"""
     depth = 0
     for j in range(i, len(src)):
         if src[j] == "{": depth += 1
@@ -26,6 +34,80 @@ def body_at(src, i):
             depth -= 1
             if depth == 0: return j + 1
     die("unbalanced braces")
+
+def norm(s):
+    return re.sub(r"\s+", " ", s).strip()
+
+CALL = re.compile(r"self\s*\.\s*(\w+)\s*(?:::\s*<[^;{}]*?>\s*)?\(")
+BUILDER_INSERT = re.compile(r"\.\s*insert\s*\(\s*self\s*\)")
+DIRECT_MUT = re.compile(r"self\s*\.\s*node_map\s*\.\s*(insert|remove)\s*\(|self\s*\.\s*references\s*\.\s*(insert\w*|delete\w*)\s*\(")
+EXIT = re.compile(r"\breturn\b|\?\s*[;)\n.]")
+
+def scan(body, fns):
+    """walks the body (text from '{' to matching '}'); returns (calls, direct_mut) where calls is a list
+    of (callee, guard) — guard = tuple of canonical strings describing why the call is not an
+    unconditional top-level statement (empty tuple = unconditional)."""
+    calls = []
+    stack = []            # headers of the enclosing blocks / parens (inside the fn body)
+    last_closed = {}      # nesting level -> header of the block that closed last at that level
+    exits = []            # early exits seen so far (canonical text of where)
+    seg_start = 1         # start of the current "header" segment
+    i = 1                 # skip the opening brace of the fn body
+    n = len(body) - 1     # and the closing one
+    while i < n:
+        ch = body[i]
+        if ch in "{(":
+            header = norm(body[seg_start:i])
+            if ch == "{" and header == "else":
+                header = "else [" + last_closed.get(len(stack), "?") + "]"
+            elif ch == "{" and header.startswith("else if"):
+                header = header + " [after " + last_closed.get(len(stack), "?") + "]"
+            # a '(' that merely opens the argument list of a call is not a guard unless it holds a closure
+            if ch == "(":
+                j = body_paren_end(body, i)
+                inner = body[i + 1:j]
+                header = "closure in " + norm(body[seg_start:i])[-40:] if re.search(r"\|[^|]*\|", inner) else None
+            stack.append(header)
+            if ch == "{":
+                seg_start = i + 1
+        elif ch in "})":
+            if stack:
+                h = stack.pop()
+                if ch == "}" and h is not None:
+                    last_closed[len(stack)] = h
+            if ch == "}":
+                seg_start = i + 1
+        elif ch == ";":
+            seg_start = i + 1
+        # early exits
+        m = EXIT.match(body, i)
+        if m and (i == 0 or not (body[i - 1].isalnum() or body[i - 1] == "_")):
+            guards = tuple(h for h in stack if h is not None)
+            exits.append("exit in [" + " > ".join(guards) + "]" if guards else "exit at top level")
+        # calls
+        m = CALL.match(body, i)
+        callee = None
+        if m and (i == 0 or not (body[i - 1].isalnum() or body[i - 1] == "_")):
+            if m.group(1) in fns:
+                callee = m.group(1)
+        else:
+            m2 = BUILDER_INSERT.match(body, i)
+            if m2:
+                callee = "insert"
+        if callee:
+            guards = tuple(h for h in stack if h is not None) + tuple("after " + e for e in exits)
+            calls.append((callee, guards))
+        i += 1
+    return calls, bool(DIRECT_MUT.search(body))
+
+def body_paren_end(s, i):
+    depth = 0
+    for j in range(i, len(s)):
+        if s[j] == "(": depth += 1
+        elif s[j] == ")":
+            depth -= 1
+            if depth == 0: return j
+    return len(s) - 1
 
 def main():
     repo, root = sys.argv[1], sys.argv[2]
@@ -41,7 +123,6 @@ def main():
     for fm in re.finditer(r"\n    (pub(?:\([a-z]+\))? )?fn (\w+)", impl):
         name, vis = fm.group(2), (fm.group(1) or "").strip()
         k = fm.end()
-        # end of the signature: first '{' at paren depth 0 (where-clauses contain no braces here)
         depth = 0
         while k < len(impl):
             ch = impl[k]
@@ -54,31 +135,53 @@ def main():
         fns[name] = {"vis": vis, "mut": "&mut self" in sig, "body": impl[k:end]}
     if "update_last_modified" not in fns or len(fns) < 20:
         die("unexpected shape of impl AddressSpace (%d fns)" % len(fns))
-    direct_mut = re.compile(r"self\s*\.\s*node_map\s*\.\s*(insert|remove)\s*\(|self\s*\.\s*references\s*\.\s*(insert\w*|delete\w*)\s*\(")
-    call = re.compile(r"self\s*\.\s*(\w+)\s*(?:::\s*<[^;{}]*?>\s*)?\(")
     for f in fns.values():
-        f["calls"] = set(c for c in call.findall(f["body"]) if c in fns)
-        if re.search(r"\.\s*insert\s*\(\s*self\s*\)", f["body"]):
-            f["calls"].add("insert")          # builders: `XBuilder::new(..)….insert(self)`
-        f["m"] = bool(direct_mut.search(f["body"]))
-        f["b"] = "update_last_modified" in f["calls"]
+        f["calls"], f["m"] = scan(f["body"], fns)
+    # transitive "mutates"
     changed = True
     while changed:
         changed = False
         for f in fns.values():
-            for c in f["calls"]:
-                if fns[c]["m"] and not f["m"]: f["m"] = True; changed = True
-                if fns[c]["b"] and not f["b"]: f["b"] = True; changed = True
-    rows = sorted((n, f["b"]) for n, f in fns.items() if f["vis"] == "pub" and f["mut"] and f["m"])
-    need = {"insert", "insert_reference", "delete", "delete_reference"}
-    if not need <= {n for n, _ in rows}:
-        die("expected mutators missing: %s" % sorted(need - {n for n, _ in rows}))
+            if not f["m"] and any(fns[c]["m"] for c, _ in f["calls"]):
+                f["m"] = True; changed = True
+    # paths to update_last_modified: set of guard tuples (empty tuple = always); fixpoint, depth-limited
+    paths = {n: set() for n in fns}
+    paths["update_last_modified"] = {()}
+    for _ in range(8):
+        for n, f in fns.items():
+            if n == "update_last_modified":
+                continue
+            new = set()
+            for c, g in f["calls"]:
+                if c == n:
+                    continue          # a recursive call cannot be the first to reach the bump
+                for pg in paths[c]:
+                    if any(x.startswith("in %s:" % n) for x in pg):
+                        continue      # mutual recursion: same argument
+                    via = () if c == "update_last_modified" else tuple("in %s: %s" % (c, x) for x in pg)
+                    new.add(g + via)
+            paths[n] = new
+    rows = []
+    for n, f in sorted(fns.items()):
+        if f["vis"] == "pub" and f["mut"] and f["m"]:
+            ps = paths[n]
+            if () in ps:
+                rows.append((n, "always", ""))
+            elif ps:
+                rows.append((n, "cond", " || ".join(sorted(" & ".join(p) for p in ps))))
+            else:
+                rows.append((n, "never", ""))
+    need = {"insert", "insert_reference", "insert_references", "delete", "delete_reference", "add_variables",
+            "add_folder_with_id", "set_node_type"}
+    if not need <= {n for n, _, _ in rows}:
+        die("expected mutators missing: %s" % sorted(need - {n for n, _, _ in rows}))
+    esc = lambda s: s.replace("\\", "\\\\").replace('"', '\\"')
     out = ["-- GENERATED by tools/translate/c30_mutators.py from lib/src/server/address_space/address_space.rs — do not edit",
            "namespace OpcuaVerif.C30.Generated",
-           "/-- `pub fn`s of `impl AddressSpace` with `&mut self` that change `node_map` / `references`,",
-           "and whether each reaches `update_last_modified()` -/",
-           "def mutators : List (String × Bool) := ["]
-    out += ["  (\"%s\", %s)%s" % (n, "true" if b else "false", "," if i + 1 < len(rows) else "") for i, (n, b) in enumerate(rows)]
+           "/-- `pub fn`s of `impl AddressSpace` with `&mut self` that change `node_map` / `references`:",
+           "(name, \"always\" | \"cond\" | \"never\", canonical guards under which `update_last_modified()` is reached) -/",
+           "def mutators : List (String × String × String) := ["]
+    out += ["  (\"%s\", \"%s\", \"%s\")%s" % (n, k, esc(g), "," if i + 1 < len(rows) else "") for i, (n, k, g) in enumerate(rows)]
     out += ["]", "end OpcuaVerif.C30.Generated", ""]
     text = "\n".join(out)
     dst = os.path.join(root, "lean/OpcuaVerif/Generated/C30Mutators.lean")
@@ -89,7 +192,7 @@ def main():
         same = False
     if not same:
         open(dst, "w").write(text)
-    print("%d structural mutators; without update_last_modified: %s" % (len(rows), [n for n, b in rows if not b]))
+    print("%d structural mutators; not unconditional: %s" % (len(rows), [(n, k, g) for n, k, g in rows if k != "always"]))
 
 if __name__ == "__main__":
     main()
